@@ -51,10 +51,19 @@ Definition sx_output (o : output) : sx :=
   | OTopReceipt f part m r => SL [SN 8; SN f; sx_on part; SN m; sx_bool r]
   end.
 
+(* where the chain IN USE for a (group, sender) stands: python-axolotl's chain iteration of the record's first state
+   = the start the first distribution message gave it, moved past every iteration decrypted since *)
+Definition head_next (k : skstate) : N := fold_left N.max (map (fun i => i + 1) (k_seen k)) (k_start k).
+
 Definition sx_state (a : acct) : sx :=
   SL [SL (map (fun p => SL [SN (fst p); SL (map (fun s => SN (s_sid s)) (snd p))]) (a_sess a));
       SL (map (fun p => SL [SN (fst p); SN (snd p)]) (a_skown a));
-      SN (N.of_nat (length (a_sentq a)))].
+      SN (N.of_nat (length (a_sentq a)));
+      (* (pairkey group sender, position of the chain in use, number of states stored) *)
+      SL (concat (map (fun p => match snd p with
+                                | [] => []
+                                | k :: _ => [SL [SN (fst p); SN (head_next k); SN (N.of_nat (length (snd p)))]]
+                                end) (a_skpeer a)))].
 
 Fixpoint run_sx (a : acct) (ins : list input) : list sx :=
   match ins with
